@@ -130,7 +130,8 @@ func (t *Tree[E]) sequenceEnded(pos int) {
 }
 
 func (t *Tree[E]) playGame(a, b int) (loser, winner int) {
-	if t.nodes[a].value < t.nodes[b].value {
+	// If they are equal, a wins when b is a sequence that ended: its value is maxVal, which a may hold as a real value.
+	if t.nodes[a].value < t.nodes[b].value || t.nodes[b].index == -1 {
 		return b, a
 	}
 	return a, b
